@@ -73,6 +73,27 @@ const nobodyID = 65534
 var unprivState struct {
 	once sync.Once
 	how  string // "" = not available, "native" = this process is not root, "setuid" = root that can drop to nobody
+	base string // setuid: a world-reachable scratch directory (the usual one may lie below a private directory)
+	pgv  string // setuid: a copy of the CLI inside base
+}
+
+// unprivCleanup removes the world-reachable scratch directory (TestMain calls it at exit).
+func unprivCleanup() {
+	if unprivState.base != "" {
+		_ = os.RemoveAll(unprivState.base)
+	}
+}
+
+// newWorkDirFor returns a scratch directory that the user of the run can reach.
+func newWorkDirFor(unpriv bool) string {
+	if unpriv && unprivHow() == "setuid" {
+		workSeq++
+		d, err := os.MkdirTemp(unprivState.base, fmt.Sprintf("inj%d-", workSeq))
+		if err == nil {
+			return d
+		}
+	}
+	return newWorkDir()
 }
 
 // unprivHow reports how the CLI can be run without root's exemption from permission bits.
@@ -86,7 +107,21 @@ func unprivHow() string {
 			unprivState.how = "native"
 			return
 		}
-		// probe: can the binary be executed as nobody (the path may lie below a private directory)?
+		// a copy of the binary in a directory below the system's temporary directory, which every user can
+		// reach (the work directory of the driver may lie below a private one); created now, removed at exit
+		base, err := os.MkdirTemp("/tmp", "verif-unpriv-")
+		if err != nil {
+			return
+		}
+		unprivState.base = base
+		_ = os.Chmod(base, 0o755)
+		bin, err := os.ReadFile(pgv)
+		if err != nil || os.WriteFile(filepath.Join(base, "pgv"), bin, 0o755) != nil {
+			return
+		}
+		unprivState.pgv = filepath.Join(base, "pgv")
+		pgv = unprivState.pgv
+		// probe: can the binary be executed as nobody?
 		cmd := exec.Command(pgv, "-f", "/nonexistent/verif-probe.go")
 		cmd.SysProcAttr = &syscall.SysProcAttr{Credential: &syscall.Credential{Uid: nobodyID, Gid: nobodyID}}
 		if err := cmd.Run(); err == nil {
@@ -135,6 +170,7 @@ func runInjectorAs(unpriv bool, mode, dir, path string) (output string, err erro
 		return "", fmt.Errorf("bad mode %s", mode)
 	}
 	if unpriv && unprivHow() == "setuid" {
+		cmd.Path, cmd.Args[0] = unprivState.pgv, unprivState.pgv
 		cmd.SysProcAttr = &syscall.SysProcAttr{Credential: &syscall.Credential{Uid: nobodyID, Gid: nobodyID}}
 	}
 	var out bytes.Buffer
